@@ -1,8 +1,1169 @@
-//! C08 file and pipe I/O matches the OS on every driver — not built yet.
+//! C08 — file and pipe I/O matches the OS, identically on every driver.
+//!
+//! Differential monitor. One seeded program of file / pipe / directory
+//! operations is applied, step by step, to
+//!   * `ref`     — libc / std::fs calls (the OS's own synchronous calls),
+//!   * `iour`    — compio-fs on a runtime whose proactor is io_uring,
+//!   * `poll`    — compio-fs on the polling driver (files go through the pool),
+//!   * `iour-fb` — io_uring with every opcode that has a blocking fallback
+//!                 forced unsupported (`compio_driver::verif::force_unsupported`),
+//! each on its own copy of the same initial directory tree. After every step
+//! the result (`Ok(n)` / error kind + errno), the returned buffers (length of
+//! every member and the whole allocation: bytes outside the window the OS may
+//! write must be untouched), metadata / data results, and after every mutating
+//! step the whole tree (type, mode, nlink, length, content) are compared with
+//! the reference. Steps that would block (empty pipe, FIFO open without peer)
+//! are decided by the reference executor, which uses non-blocking descriptors,
+//! and skipped for everyone, so a hang is never a legitimate outcome; the
+//! watchdog reports one as inconclusive.
 
-use vcommon::Args;
+#[path = "c08_buf.rs"]
+mod buf;
+#[path = "c08_exec.rs"]
+mod exec;
 
-pub fn main(_args: &Args) {
-    eprintln!("c08: not implemented");
-    std::process::exit(3);
+use std::{
+    collections::HashSet,
+    path::PathBuf,
+    sync::{
+        Arc, Mutex,
+        atomic::{AtomicBool, AtomicU64, Ordering},
+    },
+    time::{Duration, Instant},
+};
+
+use buf::*;
+use compio_driver::{DriverType, ProactorBuilder, verif};
+use compio_runtime::Runtime;
+use exec::*;
+use vcommon::{Args, Report, Rng, Value, json, panics};
+
+// IORING_OP_* codes (linux-raw-sys io_uring.rs / io-uring `opcode::X::CODE`);
+// the io-uring crate is not a dependency of the harness.
+const IORING_OP_OPENAT: u8 = 18;
+const IORING_OP_CLOSE: u8 = 19;
+const IORING_OP_STATX: u8 = 21;
+const IORING_OP_SPLICE: u8 = 30;
+const IORING_OP_RENAMEAT: u8 = 35;
+const IORING_OP_UNLINKAT: u8 = 36;
+const IORING_OP_MKDIRAT: u8 = 37;
+const IORING_OP_SYMLINKAT: u8 = 38;
+const IORING_OP_LINKAT: u8 = 39;
+const IORING_OP_FTRUNCATE: u8 = 55;
+const IORING_OP_PIPE: u8 = 62;
+/// Every file-system opcode for which compio implements `call_blocking`.
+/// READ(22)/WRITE(23)/READV(1)/WRITEV(2)/FSYNC(3) have no fallback: they are
+/// in `OpCodeFlag::basic()`, without which the fusion driver never selects
+/// io_uring, so forcing them would exercise a configuration compio excludes.
+const FALLBACK_OPS: [u8; 11] = [
+    IORING_OP_OPENAT,
+    IORING_OP_CLOSE,
+    IORING_OP_STATX,
+    IORING_OP_SPLICE,
+    IORING_OP_RENAMEAT,
+    IORING_OP_UNLINKAT,
+    IORING_OP_MKDIRAT,
+    IORING_OP_SYMLINKAT,
+    IORING_OP_LINKAT,
+    IORING_OP_FTRUNCATE,
+    IORING_OP_PIPE,
+];
+
+const VARIANTS: [&str; 3] = ["iour", "poll", "iour-fb"];
+
+// ---------------------------------------------------------------------------
+// watchdog
+// ---------------------------------------------------------------------------
+
+struct Shared {
+    rep: Mutex<Report>,
+    beat: AtomicU64,
+    what: Mutex<String>,
+    done: AtomicBool,
+}
+
+impl Shared {
+    fn rep<T>(&self, f: impl FnOnce(&mut Report) -> T) -> T {
+        f(&mut self.rep.lock().unwrap_or_else(|e| e.into_inner()))
+    }
+
+    fn beat(&self, what: impl FnOnce() -> String) {
+        self.beat.fetch_add(1, Ordering::SeqCst);
+        *self.what.lock().unwrap_or_else(|e| e.into_inner()) = what();
+    }
+}
+
+fn start_watchdog(sh: Arc<Shared>, limit: Duration, cleanup: PathBuf) {
+    std::thread::spawn(move || {
+        let mut last = sh.beat.load(Ordering::SeqCst);
+        let mut since = Instant::now();
+        loop {
+            std::thread::sleep(Duration::from_millis(250));
+            if sh.done.load(Ordering::SeqCst) {
+                return;
+            }
+            let now = sh.beat.load(Ordering::SeqCst);
+            if now != last {
+                last = now;
+                since = Instant::now();
+                continue;
+            }
+            if since.elapsed() >= limit {
+                let what = sh.what.lock().unwrap_or_else(|e| e.into_inner()).clone();
+                sh.rep(|r| {
+                    r.inconclusive(&format!("watchdog: no progress for {}s in {what}", limit.as_secs()));
+                    r.finish();
+                });
+                remove_tree(&cleanup);
+                std::process::exit(0);
+            }
+        }
+    });
+}
+
+// ---------------------------------------------------------------------------
+// variants
+// ---------------------------------------------------------------------------
+
+struct Variant {
+    name: &'static str,
+    rt: Runtime,
+    fallback: bool,
+}
+
+fn build_variants() -> std::io::Result<Vec<Variant>> {
+    let mut out = Vec::new();
+    for name in VARIANTS {
+        let mut pb = ProactorBuilder::new();
+        pb.driver_type(if name == "poll" { DriverType::Poll } else { DriverType::IoUring });
+        pb.capacity(64);
+        let rt = Runtime::builder().with_proactor(pb).build()?;
+        let want_poll = name == "poll";
+        if rt.driver_type().is_polling() != want_poll {
+            return Err(std::io::Error::other(format!("variant {name} got driver {:?}", rt.driver_type())));
+        }
+        out.push(Variant {
+            name,
+            rt,
+            fallback: name == "iour-fb",
+        });
+    }
+    Ok(out)
+}
+
+fn force_fallback(ops: &[u8], on: bool) {
+    for c in ops {
+        verif::force_unsupported(*c, on);
+    }
+}
+
+// ---------------------------------------------------------------------------
+// generator
+// ---------------------------------------------------------------------------
+
+const PATHS: &[&str] = &[
+    "a.txt",
+    "b.bin",
+    "empty",
+    "ro.txt",
+    "d",
+    "d/inner.txt",
+    "d/sub",
+    "link",
+    "dlink",
+    "dlink/inner.txt",
+    "dangling",
+    "fifo",
+    "new1",
+    "new2",
+    "d/new3",
+    "d/sub/new4",
+    "nodir/x",
+    "d/sub/x/y/z",
+    "a.txt/x",
+    "",
+    "nul\0x",
+    "LONG",
+];
+
+fn long_name() -> String {
+    "n".repeat(300)
+}
+
+fn pick_path(rng: &mut Rng, files_only: bool) -> String {
+    let p = if files_only && rng.chance(3, 4) {
+        *rng.pick(&["a.txt", "b.bin", "empty", "ro.txt", "d/inner.txt", "link", "new1", "new2", "d/new3"])
+    } else if rng.chance(1, 12) {
+        *rng.pick(&["", "nul\0x", "LONG", "a.txt/x", "nodir/x"])
+    } else {
+        *rng.pick(&PATHS[..19])
+    };
+    if p == "LONG" { long_name() } else { p.to_string() }
+}
+
+const CAPS: &[usize] = &[0, 1, 2, 3, 7, 8, 16, 33, 64, 100, 255, 256, 1000, 4096, 4097, 5000, 8192, 20000];
+
+fn pick_cap(rng: &mut Rng, max: usize) -> usize {
+    let c = if rng.chance(3, 4) { CAPS[rng.below(11)] } else { *rng.pick(CAPS) };
+    c.min(max)
+}
+
+fn pick_member(rng: &mut Rng, max: usize) -> (usize, usize) {
+    let cap = pick_cap(rng, max);
+    let len = match rng.below(5) {
+        0 => 0,
+        1 | 2 => cap,
+        _ => rng.below(cap + 1),
+    };
+    (len, cap)
+}
+
+fn gen_members(rng: &mut Rng, k: usize, max: usize, for_read: bool) -> Vec<(usize, usize)> {
+    let mut m: Vec<(usize, usize)> = (0..k).map(|_| pick_member(rng, max)).collect();
+    if for_read && rng.chance(5, 6) {
+        // prefix shaped: full members, at most one partial, then empty ones
+        let cut = rng.below(k + 1);
+        for (i, x) in m.iter_mut().enumerate() {
+            if i < cut {
+                x.0 = x.1;
+            } else if i > cut {
+                x.0 = 0;
+            }
+        }
+    }
+    if rng.chance(1, 3) && k > 0 {
+        let i = rng.below(k);
+        m[i] = (0, 0);
+    }
+    m
+}
+
+fn gen_buf(rng: &mut Rng, read: bool, vectored: bool, salt: u32, max: usize) -> BufSpec {
+    let mut spec = BufSpec {
+        kind: BK::Vec,
+        m: Vec::new(),
+        b: 0,
+        e: None,
+        salt,
+    };
+    if vectored {
+        let kinds: &[BK] = if read {
+            &[BK::VecVec, BK::VecVec, BK::Arr3, BK::Tuple, BK::VecBox]
+        } else {
+            &[BK::VecVec, BK::VecVec, BK::Arr3, BK::Tuple, BK::VecBox, BK::VecStatic, BK::VSlice]
+        };
+        spec.kind = *rng.pick(kinds);
+        let k = match spec.kind {
+            BK::Arr3 => 3,
+            BK::Tuple => 2,
+            _ => rng.below(5),
+        };
+        spec.m = gen_members(rng, k, max.min(4200), read);
+        if spec.kind == BK::VSlice {
+            let total: usize = spec.m.iter().map(|x| x.0).sum();
+            spec.b = rng.size(total);
+        }
+    } else {
+        let kinds: &[BK] = if read {
+            &[BK::Vec, BK::Vec, BK::Vec, BK::Arr, BK::Box, BK::Slice, BK::Slice, BK::Uninit, BK::Uninit, BK::BytesMut]
+        } else {
+            &[
+                BK::Vec,
+                BK::Vec,
+                BK::Vec,
+                BK::Arr,
+                BK::Box,
+                BK::Slice,
+                BK::Slice,
+                BK::BytesMut,
+                BK::Static,
+                BK::Str,
+                BK::String,
+                BK::Bytes,
+                BK::Uninit,
+            ]
+        };
+        spec.kind = *rng.pick(kinds);
+        spec.m = vec![pick_member(rng, max)];
+        match spec.kind {
+            BK::Slice => {
+                let (len, cap) = spec.m[0];
+                spec.b = rng.size(len);
+                spec.e = match rng.below(4) {
+                    0 => None,
+                    1 => Some(rng.range(spec.b, len.max(spec.b))),
+                    2 => Some(rng.range(spec.b, cap.max(spec.b))),
+                    _ => Some(cap + rng.below(9)),
+                };
+            }
+            BK::Static | BK::Str => spec.b = rng.below(64),
+            _ => {}
+        }
+    }
+    spec.normalise();
+    spec
+}
+
+fn gen_offset(rng: &mut Rng, size: u64, write: bool) -> u64 {
+    match rng.below(20) {
+        0..=4 => 0,
+        5..=9 => {
+            if size > 0 {
+                rng.below(size.min(1 << 30) as usize) as u64
+            } else {
+                0
+            }
+        }
+        10..=12 => size,
+        13 => size.saturating_sub(1),
+        14 | 15 => size + 1 + rng.below(100) as u64,
+        16 => {
+            if size < 200_000 {
+                size + 4096 + rng.below(66_000) as u64
+            } else {
+                size
+            }
+        }
+        17 => {
+            if write {
+                // at the edge of what the file system accepts
+                *rng.pick(&[i64::MAX as u64, i64::MAX as u64 - 1, (i64::MAX as u64) - 4096])
+            } else {
+                *rng.pick(&[1u64 << 40, 1u64 << 62, i64::MAX as u64])
+            }
+        }
+        18 => {
+            if rng.chance(1, 4) {
+                // not representable as off_t
+                *rng.pick(&[1u64 << 63, u64::MAX, u64::MAX - 1])
+            } else {
+                size
+            }
+        }
+        _ => size / 2,
+    }
+}
+
+fn offset_class(off: u64, size: u64) -> &'static str {
+    if off >= 1 << 63 {
+        "neg"
+    } else if off >= 1 << 40 {
+        "huge"
+    } else if off == 0 {
+        "0"
+    } else if off < size {
+        "mid"
+    } else if off == size {
+        "eof"
+    } else if off < size + 4096 {
+        "beyond"
+    } else {
+        "far"
+    }
+}
+
+fn len_class(n: usize) -> &'static str {
+    match n {
+        0 => "0",
+        1 => "1",
+        2..=64 => "small",
+        65..=4095 => "mid",
+        _ => "big",
+    }
+}
+
+const OPEN_COMBOS: &[u32] = &[
+    O_READ,
+    O_READ,
+    O_WRITE,
+    O_READ | O_WRITE,
+    O_READ | O_WRITE,
+    O_WRITE | O_CREATE,
+    O_READ | O_WRITE | O_CREATE,
+    O_WRITE | O_CREATE | O_TRUNC,
+    O_WRITE | O_TRUNC,
+    O_READ | O_WRITE | O_TRUNC,
+    O_WRITE | O_CREATE_NEW,
+    O_READ | O_WRITE | O_CREATE_NEW,
+    O_WRITE | O_CREATE | O_CREATE_NEW | O_TRUNC,
+];
+
+fn gen_open(rng: &mut Rng, h: usize) -> Op {
+    let mut op = Op::new(OK::Open);
+    op.h = h;
+    op.p = pick_path(rng, true);
+    op.fl = if rng.chance(4, 5) { *rng.pick(OPEN_COMBOS) } else { rng.below(32) as u32 };
+    op.c = match rng.below(16) {
+        0..=8 => 0,
+        9 | 10 => libc::O_APPEND,
+        11 => libc::O_NOFOLLOW,
+        12 => libc::O_DIRECTORY,
+        13 => libc::O_APPEND | libc::O_NOFOLLOW,
+        14 => *rng.pick(&[libc::O_TRUNC, libc::O_EXCL | libc::O_CREAT, libc::O_SYNC, libc::O_NOATIME, libc::O_WRONLY]),
+        _ => libc::O_APPEND | libc::O_SYNC,
+    };
+    if rng.chance(1, 3) {
+        op.fl |= O_HAS_MODE;
+        op.n = *rng.pick(&[0o600, 0o644, 0o400, 0o000, 0o777, 0o4755, 0o640, 0o200]) as u64;
+    }
+    op
+}
+
+fn gen_mode(rng: &mut Rng) -> u64 {
+    *rng.pick(&[0o600, 0o644, 0o444, 0o000, 0o777, 0o755, 0o700, 0o1777, 0o4755, 0o2750, 0o200]) as u64
+}
+
+/// Paths the kernel rejects while copying the name in (empty, too long).
+/// Where a second error condition can coexist (open flags, a second path),
+/// io_uring and the system call report them in a different order; which of
+/// two simultaneous errors wins is not part of the property, so such paths
+/// are only used where they are the only possible error.
+fn name_level_error(p: &str) -> bool {
+    p.is_empty() || p.len() > 255
+}
+
+fn gen_op(rng: &mut Rng, w: &RefWorld, salt: u32) -> Op {
+    let mut op = gen_op_raw(rng, w, salt);
+    match op.k {
+        OK::Open | OK::PipeOpen | OK::FsWrite => {
+            if name_level_error(&op.p) {
+                op.p = "nodir/x".into();
+            }
+        }
+        OK::Rename | OK::HardLink | OK::Symlink => {
+            if name_level_error(&op.q) {
+                op.q = "nodir/x".into();
+            }
+        }
+        _ => {}
+    }
+    op.normalise();
+    op
+}
+
+fn gen_op_raw(rng: &mut Rng, w: &RefWorld, salt: u32) -> Op {
+    let open_slots: Vec<usize> = (0..NH).filter(|h| w.slot_info(*h).is_some()).collect();
+    let cat = rng.below(100);
+    if (cat < 38 || (40..52).contains(&cat)) && open_slots.is_empty() {
+        let h = rng.below(NH);
+        return gen_open(rng, h);
+    }
+    match cat {
+        // positional file I/O
+        0..=37 => {
+            let h = *rng.pick(&open_slots);
+            let (size, _) = w.slot_info(h).unwrap();
+            let which = rng.below(10);
+            let (k, read, vect) = match which {
+                0..=2 => (OK::ReadAt, true, false),
+                3 | 4 => (OK::ReadVAt, true, true),
+                5..=7 => (OK::WriteAt, false, false),
+                _ => (OK::WriteVAt, false, true),
+            };
+            let mut op = Op::new(k);
+            op.h = h;
+            op.off = gen_offset(rng, size, !read);
+            op.buf = Some(gen_buf(rng, read, vect, salt, 20000));
+            op
+        }
+        38 | 39 => {
+            let mut op = Op::new(OK::Close);
+            op.h = if open_slots.is_empty() { 0 } else { *rng.pick(&open_slots) };
+            op.fl = rng.below(2) as u32;
+            op
+        }
+        // handle ops
+        40..=51 => {
+            let h = *rng.pick(&open_slots);
+            let (size, _) = w.slot_info(h).unwrap();
+            let mut op = Op::new(*rng.pick(&[
+                OK::SetLen,
+                OK::SetLen,
+                OK::SetLen,
+                OK::SyncAll,
+                OK::SyncData,
+                OK::Meta,
+                OK::Meta,
+                OK::SetPerm,
+            ]));
+            op.h = h;
+            op.n = match op.k {
+                OK::SetLen => match rng.below(10) {
+                    0 | 1 => 0,
+                    2 | 3 => size / 2,
+                    4 => size,
+                    5 | 6 => size + 1 + rng.below(5000) as u64,
+                    7 => 1 << 20,
+                    8 => *rng.pick(&[1u64 << 40, i64::MAX as u64, 1 << 63, u64::MAX]),
+                    _ => rng.below(10000) as u64,
+                },
+                OK::SetPerm => gen_mode(rng),
+                _ => 0,
+            };
+            op
+        }
+        52..=62 => {
+            let h = rng.below(NH);
+            gen_open(rng, h)
+        }
+        // path ops
+        63..=82 => {
+            let k = *rng.pick(&[
+                OK::PMeta,
+                OK::PMeta,
+                OK::PSymMeta,
+                OK::PSymMeta,
+                OK::PSetPerm,
+                OK::MkDir,
+                OK::MkDir,
+                OK::MkDirAll,
+                OK::MkDirAll,
+                OK::MkDirMode,
+                OK::RmFile,
+                OK::RmFile,
+                OK::RmDir,
+                OK::RmDir,
+                OK::Rename,
+                OK::Rename,
+                OK::Symlink,
+                OK::HardLink,
+                OK::HardLink,
+            ]);
+            let mut op = Op::new(k);
+            op.p = pick_path(rng, false);
+            match k {
+                OK::Rename | OK::HardLink => op.q = pick_path(rng, false),
+                OK::Symlink => {
+                    op.p = rng.pick(&["a.txt", "d", "nope", "../x", "", "d/inner.txt", "/nonexistent"]).to_string();
+                    op.q = pick_path(rng, false);
+                }
+                OK::PSetPerm | OK::MkDirMode => op.n = gen_mode(rng),
+                _ => {}
+            }
+            op
+        }
+        83..=86 => {
+            if rng.chance(1, 2) {
+                let mut op = Op::new(OK::FsRead);
+                op.p = pick_path(rng, true);
+                op
+            } else {
+                let mut op = Op::new(OK::FsWrite);
+                op.p = pick_path(rng, true);
+                op.buf = Some(gen_buf(rng, false, false, salt, 20000));
+                op
+            }
+        }
+        // pipes
+        _ => {
+            let k = rng.below(NP);
+            let (rx, tx) = w.pipe_info(k);
+            let mut op = Op::new(OK::PipeNew);
+            op.h = k;
+            if !rx && !tx {
+                if rng.chance(1, 3) {
+                    op.k = OK::PipeOpen;
+                    op.p = if rng.chance(4, 5) { "fifo".to_string() } else { pick_path(rng, false) };
+                    op.fl = rng.below(2) as u32 | P_RW | if rng.chance(1, 4) { P_UNCHECKED } else { 0 };
+                }
+                return op;
+            }
+            let c = rng.below(100);
+            match c {
+                0..=29 if tx => {
+                    op.k = if rng.chance(3, 5) { OK::PipeWrite } else { OK::PipeWriteV };
+                    op.buf = Some(gen_buf(rng, false, op.k == OK::PipeWriteV, salt, 1400));
+                }
+                30..=64 if rx => {
+                    op.k = *rng.pick(&[OK::PipeRead, OK::PipeRead, OK::PipeReadV, OK::PipeReadV, OK::PipeAppend]);
+                    op.buf = Some(gen_buf(rng, true, op.k == OK::PipeReadV, salt, 5000));
+                }
+                65..=69 => {
+                    op.k = if rng.chance(1, 2) { OK::PipeCloseRx } else { OK::PipeCloseTx };
+                    op.fl = rng.below(2) as u32;
+                }
+                70..=79 => {
+                    op.k = OK::PipeOpen;
+                    op.p = if rng.chance(4, 5) { "fifo".to_string() } else { pick_path(rng, false) };
+                    op.fl = rng.below(8) as u32;
+                }
+                80..=89 if !open_slots.is_empty() => {
+                    let h = *rng.pick(&open_slots);
+                    let (size, _) = w.slot_info(h).unwrap();
+                    op.k = if rng.chance(1, 2) { OK::SpliceIn } else { OK::SpliceOut };
+                    op.h = h;
+                    op.h2 = k;
+                    op.n = *rng.pick(&[0usize, 1, 10, 100, 1000, 4096]) as u64;
+                    op.off = match rng.below(4) {
+                        0 => 0,
+                        1 => size,
+                        2 => size / 2,
+                        _ => size + 10,
+                    };
+                }
+                90..=94 => {}
+                _ => {
+                    op.k = if tx { OK::PipeWrite } else { OK::PipeRead };
+                    op.buf = Some(gen_buf(rng, !tx, false, salt, 1400));
+                }
+            }
+            op
+        }
+    }
+}
+
+// ---------------------------------------------------------------------------
+// the differential run of one program
+// ---------------------------------------------------------------------------
+
+#[derive(Clone, Debug)]
+struct Violation {
+    sig: String,
+    what: String,
+    step: usize,
+}
+
+enum Source<'a> {
+    /// Generate on the fly (needs the reference state), up to `n` steps.
+    Gen { rng: &'a mut Rng, n: usize },
+    Fixed(&'a [Op]),
+}
+
+struct RunOut {
+    prog: Vec<Op>,
+    /// At most one per driver variant: a variant that disagreed once is left
+    /// out of the rest of the program (its state is no longer comparable).
+    violations: Vec<Violation>,
+    /// Harness problem description — never a violation.
+    trouble: Option<String>,
+    /// The process cannot go on (descriptor table no longer trustworthy).
+    fatal: bool,
+}
+
+struct Ctx<'a> {
+    sh: &'a Arc<Shared>,
+    variants: &'a [Variant],
+    base: &'a PathBuf,
+    /// Report signatures / counters (false while minimising).
+    record: bool,
+    trace: bool,
+}
+
+type Fails = Vec<(&'static str, Vec<usize>, String)>;
+
+fn add(fails: &mut Fails, rule: &'static str, v: usize, what: String) {
+    if let Some(f) = fails.iter_mut().find(|f| f.0 == rule) {
+        f.1.push(v);
+    } else {
+        fails.push((rule, vec![v], what));
+    }
+}
+
+fn variants_label(bad: &[usize]) -> String {
+    if bad.len() == VARIANTS.len() {
+        "all".to_string()
+    } else {
+        let mut b = bad.to_vec();
+        b.sort();
+        b.iter().map(|i| VARIANTS[*i]).collect::<Vec<_>>().join("+")
+    }
+}
+
+fn run_program(ctx: &Ctx<'_>, mut src: Source<'_>, fb_ops: &[u8], tag: &str) -> RunOut {
+    let dir = ctx.base.join(tag);
+    remove_tree(&dir);
+    let mut out = RunOut {
+        prog: Vec::new(),
+        violations: Vec::new(),
+        trouble: None,
+        fatal: false,
+    };
+    let roots: Vec<PathBuf> = std::iter::once("ref").chain(VARIANTS).map(|n| dir.join(n)).collect();
+    for r in &roots {
+        if let Err(e) = make_tree(r) {
+            out.trouble = Some(format!("cannot create the initial tree: {e}"));
+            remove_tree(&dir);
+            return out;
+        }
+    }
+    let mut rw = RefWorld::new(roots[0].clone());
+    let mut cws: Vec<Option<CWorld>> = roots[1..].iter().map(|r| Some(CWorld::new(r.clone()))).collect();
+    let mut step = 0usize;
+    let fd0 = fd_identity(0);
+    'steps: loop {
+        let n_alive = cws.iter().filter(|c| c.is_some()).count();
+        if n_alive == 0 {
+            break;
+        }
+        let op = match &mut src {
+            Source::Gen { rng, n } => {
+                if step >= *n {
+                    break;
+                }
+                let salt = (rng.next_u64() & 0xffff) as u32;
+                gen_op(rng, &rw, salt)
+            }
+            Source::Fixed(ops) => match ops.get(step) {
+                Some(o) => o.clone(),
+                None => break,
+            },
+        };
+        out.prog.push(op.clone());
+        let label = rw.op_label(&op);
+        if ctx.trace {
+            eprintln!("[{tag}] step {step}: {}", op.to_json());
+        }
+        // classes for the evaluation signature, from the state before the step
+        let size_before = match op.k {
+            OK::ReadAt | OK::ReadVAt | OK::WriteAt | OK::WriteVAt | OK::SpliceIn | OK::SpliceOut | OK::SetLen => {
+                rw.slot_info(op.h).map(|x| x.0).unwrap_or(0)
+            }
+            _ => 0,
+        };
+        ctx.sh.beat(|| format!("{label} on ref"));
+        let want = match panics::catch(|| rw.exec(&op)) {
+            Ok(Outcome::Done(o)) => o,
+            Ok(Outcome::Skip(why)) => {
+                if ctx.record {
+                    ctx.sh.rep(|r| {
+                        r.eval(None);
+                        r.count(&format!("skipped: {why}"), 1);
+                    });
+                }
+                step += 1;
+                continue;
+            }
+            Ok(Outcome::Broken { what, .. }) => {
+                out.trouble = Some(format!("reference executor: {what}"));
+                break;
+            }
+            Err(p) => {
+                out.trouble = Some(format!("reference executor panicked at {}:{}: {}", p.file, p.line, p.message));
+                break;
+            }
+        };
+        let is_read = matches!(op.k, OK::ReadAt | OK::ReadVAt | OK::PipeRead | OK::PipeReadV | OK::PipeAppend);
+        let shape = match &op.buf {
+            // the buffer is irrelevant for the offset classes compio cannot express
+            Some(_) if label.ends_with("2^63)") => "-".into(),
+            // and its layout is irrelevant when the I/O window is empty
+            Some(b) if (if is_read { b.read_capacity() } else { b.write_len() }) == 0 && op.k != OK::PipeAppend => {
+                "zero-window".into()
+            }
+            Some(b) => b.class(),
+            None => "-".into(),
+        };
+        let mut fails: Fails = Vec::new();
+        let mut got: Vec<Option<StepObs>> = Vec::new();
+        let mut fb_routes = 0u64;
+        for (vi, v) in ctx.variants.iter().enumerate() {
+            let Some(cw) = cws[vi].as_mut() else {
+                got.push(None);
+                continue;
+            };
+            ctx.sh.beat(|| format!("{label} on {}", v.name));
+            if ctx.trace {
+                eprintln!("[{tag}]   -> {}", v.name);
+            }
+            if v.fallback {
+                force_fallback(fb_ops, true);
+                verif::enable(true);
+            }
+            let r = panics::catch(|| v.rt.block_on(cw.exec(&op)));
+            if v.fallback {
+                verif::enable(false);
+                force_fallback(fb_ops, false);
+                fb_routes += verif::drain().iter().filter(|e| e.kind == verif::Kind::Submit && e.b == 2).count() as u64;
+            }
+            // compio must not have closed or replaced a descriptor it does
+            // not own (descriptor 0 is the harness's /dev/null)
+            let fd0_now = fd_identity(0);
+            if fd0_now != fd0 {
+                if fd0_now.is_none() {
+                    unsafe { libc::open(c"/dev/null".as_ptr(), libc::O_RDWR) };
+                }
+                if fd_identity(0) != fd0 {
+                    out.trouble = Some(format!(
+                        "descriptor table corrupted during {label} on {} (descriptor 0 replaced); stopping this process",
+                        v.name
+                    ));
+                    out.fatal = true;
+                    break 'steps;
+                }
+                let r = match r {
+                    Ok(Outcome::Done(o)) => format!("{}", o.res.show()),
+                    Ok(_) => "no result".to_string(),
+                    Err(p) => format!("panic: {}", p.message),
+                };
+                got.push(None);
+                add(
+                    &mut fails,
+                    "foreign-descriptor-closed",
+                    vi,
+                    format!("{} closed descriptor 0, which it never opened, during this step (result {r})", v.name),
+                );
+                continue;
+            }
+            match r {
+                Ok(Outcome::Done(o)) => got.push(Some(o)),
+                Ok(Outcome::Skip(why)) => {
+                    got.push(None);
+                    add(&mut fails, "handle-state", vi, format!("the reference executed the step, {} skipped it: {why}", v.name));
+                }
+                Ok(Outcome::Broken { rule, what }) => {
+                    got.push(None);
+                    add(&mut fails, rule, vi, format!("{}: {what}", v.name));
+                }
+                Err(p) => {
+                    got.push(None);
+                    match p.origin() {
+                        panics::Origin::Repo(loc) => {
+                            // a panic is its own class: report right away
+                            out.violations.push(Violation {
+                                sig: format!("C08/{}/{label}/{}/{shape}", p.sig(), v.name),
+                                what: format!(
+                                    "step {step} {}: panic in compio at {loc} on {}: {}",
+                                    op.to_json(),
+                                    v.name,
+                                    p.message
+                                ),
+                                step,
+                            });
+                            let w = cws[vi].take();
+                            std::mem::forget(w);
+                        }
+                        o => {
+                            out.trouble =
+                                Some(format!("harness panic {o:?} during {label} on {}: {}", v.name, p.message));
+                            break 'steps;
+                        }
+                    }
+                }
+            }
+        }
+        // ---- compare this step
+        let mut cmp_spec = op.buf.clone();
+        if op.k == OK::PipeAppend && let Some(s) = cmp_spec.as_mut() {
+            s.kind = BK::Uninit;
+        }
+        for (vi, v) in ctx.variants.iter().enumerate() {
+            let Some(g) = &got[vi] else { continue };
+            if !want.res.matches(&g.res) {
+                add(
+                    &mut fails,
+                    "result",
+                    vi,
+                    format!("reference {} but {} returned {}", want.res.show(), v.name, g.res.show()),
+                );
+                continue;
+            }
+            if let (Some(spec), Some(wb), Some(gb)) = (&cmp_spec, &want.bufs, &g.bufs)
+                && let Some((rule, what)) = compare_bufs(spec, is_read, want.res.ok().map(|n| n as usize), wb, gb)
+            {
+                add(&mut fails, rule, vi, format!("{}: {what}", v.name));
+                continue;
+            }
+            if want.meta != g.meta {
+                add(
+                    &mut fails,
+                    "metadata",
+                    vi,
+                    format!("reference {:?} but {} returned {:?}", want.meta, v.name, g.meta),
+                );
+                continue;
+            }
+            if want.data != g.data {
+                add(
+                    &mut fails,
+                    "data",
+                    vi,
+                    format!(
+                        "{} returned {} bytes that differ from the reference's {} bytes",
+                        v.name,
+                        g.data.as_ref().map_or(0, |d| d.len()),
+                        want.data.as_ref().map_or(0, |d| d.len())
+                    ),
+                );
+            }
+        }
+        // member lengths that the documented semantics leave open must still
+        // agree between the drivers
+        if is_read
+            && let Some(spec) = &cmp_spec
+            && !spec.read_len_exact()
+        {
+            let lens: Vec<Option<Vec<usize>>> = got
+                .iter()
+                .enumerate()
+                .map(|(vi, g)| {
+                    if fails.iter().any(|f| f.1.contains(&vi)) {
+                        return None;
+                    }
+                    g.as_ref().and_then(|g| g.bufs.as_ref()).map(|b| b.iter().map(|m| m.len).collect())
+                })
+                .collect();
+            if let Some((first, l0)) = lens.iter().enumerate().find_map(|(i, l)| l.as_ref().map(|l| (i, l.clone()))) {
+                for (vi, l) in lens.iter().enumerate().skip(first + 1) {
+                    if let Some(l) = l
+                        && *l != l0
+                    {
+                        add(
+                            &mut fails,
+                            "buffer-len-between-drivers",
+                            vi,
+                            format!("member lengths {:?} on {} but {:?} on {}", l, VARIANTS[vi], l0, VARIANTS[first]),
+                        );
+                    }
+                }
+            }
+        }
+        if op.mutating() {
+            ctx.sh.beat(|| format!("snapshot after {label}"));
+            let want_snap = snapshot(&roots[0]);
+            for (vi, v) in ctx.variants.iter().enumerate() {
+                if got[vi].is_none() || fails.iter().any(|f| f.1.contains(&vi)) {
+                    continue;
+                }
+                if let Some(d) = diff_snapshots(&want_snap, &snapshot(&roots[vi + 1])) {
+                    add(&mut fails, "fs-state", vi, format!("tree of {} after the step: {d}", v.name));
+                }
+            }
+        }
+        let clean = fails.is_empty();
+        for (rule, vs, what) in fails {
+            out.violations.push(Violation {
+                sig: format!("C08/{rule}/{label}/{}/{shape}", variants_label(&vs)),
+                what: format!("step {step} {}: {what}", op.to_json()),
+                step,
+            });
+            for vi in vs {
+                // the variant's state is no longer comparable; its handles may
+                // even own descriptors they should not: leak instead of close
+                let w = cws[vi].take();
+                std::mem::forget(w);
+            }
+        }
+        if ctx.record && clean {
+            let full = op.buf.as_ref().map(|b| if is_read { b.read_capacity() } else { b.write_len() });
+            let offc = match op.k {
+                OK::ReadAt | OK::ReadVAt | OK::WriteAt | OK::WriteVAt | OK::SpliceIn | OK::SpliceOut => {
+                    offset_class(op.off, size_before)
+                }
+                OK::SetLen => offset_class(op.n, size_before),
+                _ => "-",
+            };
+            let extra = match op.k {
+                OK::Open => format!("{:02x}/{}", op.fl & 0x3f, custom_name(op.c)),
+                OK::PipeOpen => format!("{:x}", op.fl),
+                _ => String::new(),
+            };
+            let sig = format!(
+                "{label}|{shape}{extra}|{offc}|{}|{}",
+                full.map_or("-", len_class),
+                want.res.class(full)
+            );
+            ctx.sh.rep(|r| {
+                r.eval(Some(sig));
+                match (&want.res, full) {
+                    (Res::Ok(0), Some(f)) if is_read && f > 0 => r.floor("read-returned-0-at-eof", true),
+                    (Res::Ok(n), Some(f)) if is_read && (*n as usize) < f => r.floor("short-read", true),
+                    (Res::Err { .. }, _) => r.floor("error-outcome-compared", true),
+                    _ => {}
+                }
+                r.count(&format!("compared-with-{n_alive}-drivers"), 1);
+                if op.mutating() {
+                    r.count("tree-snapshots-compared", 1);
+                }
+                if fb_routes > 0 {
+                    r.floor("fallback-route-taken", true);
+                    r.count(&format!("fallback-route: {}", op.k.name()), fb_routes as i64);
+                }
+                if let Some(b) = &op.buf {
+                    r.max("max-buffer-bytes", b.m.iter().map(|m| m.1).sum::<usize>() as i64);
+                }
+            });
+        }
+        step += 1;
+    }
+    drop(rw);
+    // drop compio handles inside their runtime
+    for (v, cw) in ctx.variants.iter().zip(cws.into_iter()) {
+        v.rt.enter(|| drop(cw));
+    }
+    remove_tree(&dir);
+    out
+}
+
+fn prog_json(prog: &[Op], fb_ops: &[u8]) -> Value {
+    json!({"tree": 1, "fb": fb_ops, "ops": prog.iter().map(|o| o.to_json()).collect::<Vec<_>>()})
+}
+
+fn prog_from_json(v: &Value) -> (Vec<Op>, Vec<u8>) {
+    let ops = v["ops"].as_array().map(|a| a.iter().filter_map(Op::from_json).collect()).unwrap_or_default();
+    let fb = v["fb"]
+        .as_array()
+        .map(|a| a.iter().filter_map(|x| x.as_u64().map(|x| x as u8)).filter(|c| FALLBACK_OPS.contains(c)).collect())
+        .unwrap_or_else(|| FALLBACK_OPS.to_vec());
+    (ops, fb)
+}
+
+/// Greedy one-step removal, keeping the violation signature.
+fn minimise(ctx: &Ctx<'_>, prog: &[Op], fb_ops: &[u8], viol: &Violation, budget: usize) -> Vec<Op> {
+    let quiet = Ctx {
+        sh: ctx.sh,
+        variants: ctx.variants,
+        base: ctx.base,
+        record: false,
+        trace: false,
+    };
+    let mut cur: Vec<Op> = prog[..=viol.step.min(prog.len() - 1)].to_vec();
+    let mut trials = 0;
+    let mut i = cur.len().saturating_sub(1);
+    while i > 0 && trials < budget {
+        i -= 1;
+        let mut cand = cur.clone();
+        cand.remove(i);
+        trials += 1;
+        let r = run_program(&quiet, Source::Fixed(&cand), fb_ops, "min");
+        if r.fatal {
+            break;
+        }
+        if r.trouble.is_none() && r.violations.iter().any(|v| v.sig == viol.sig) {
+            cur = cand;
+        }
+    }
+    cur
+}
+
+// ---------------------------------------------------------------------------
+// entry
+// ---------------------------------------------------------------------------
+
+pub fn main(args: &Args) {
+    // descriptors 0..2 must be taken, so that a descriptor mix-up inside
+    // compio shows up deterministically instead of hitting a random file
+    // (stdin is not needed: make it /dev/null so that it can be restored).
+    unsafe {
+        let n = libc::open(c"/dev/null".as_ptr(), libc::O_RDWR);
+        if n != 0 {
+            libc::dup2(n, 0);
+            libc::close(n);
+        }
+        for fd in 1..3 {
+            if libc::fcntl(fd, libc::F_GETFD) == -1 {
+                libc::open(c"/dev/null".as_ptr(), libc::O_RDWR);
+            }
+        }
+    }
+    let leg = args.str("leg", "plain");
+    let sh = Arc::new(Shared {
+        rep: Mutex::new(Report::from_args("C08", &leg, args)),
+        beat: AtomicU64::new(0),
+        what: Mutex::new(String::from("start")),
+        done: AtomicBool::new(false),
+    });
+    unsafe { libc::umask(0o022) };
+    let tmp_root = if std::path::Path::new("/dev/shm").is_dir() { "/dev/shm" } else { "/tmp" };
+    let base = PathBuf::from(tmp_root).join(format!("c08-{}-{}", std::process::id(), args.shard()));
+    remove_tree(&base);
+    if let Err(e) = std::fs::create_dir_all(&base) {
+        sh.rep(|r| {
+            r.inconclusive(&format!("cannot create work directory under {tmp_root}: {}", e.kind()));
+            r.finish();
+        });
+        return;
+    }
+    start_watchdog(sh.clone(), Duration::from_secs(args.u64("watchdog-s", 20)), base.clone());
+
+    let variants = match build_variants() {
+        Ok(v) => v,
+        Err(e) => {
+            sh.rep(|r| {
+                r.inconclusive(&format!("cannot build the driver variants here: {e}"));
+                r.finish();
+            });
+            remove_tree(&base);
+            return;
+        }
+    };
+    let ctx = Ctx {
+        sh: &sh,
+        variants: &variants,
+        base: &base,
+        record: true,
+        trace: args.flag("trace"),
+    };
+    sh.rep(|r| {
+        r.note(format!(
+            "executors: ref (libc/std::fs), iour, poll, iour-fb (forced unsupported per program: random subset of {FALLBACK_OPS:?}); trees under {tmp_root}; euid {}",
+            unsafe { libc::geteuid() }
+        ));
+        r.floor("fallback-route-taken", false);
+        r.floor("short-read", false);
+        r.floor("read-returned-0-at-eof", false);
+        r.floor("error-outcome-compared", false);
+    });
+
+    if let Some(path) = args.get("replay") {
+        let text = std::fs::read_to_string(path).expect("replay file");
+        let v: Value = vcommon::serde_json::from_str(&text).expect("replay json");
+        let (prog, fb) = prog_from_json(&v["program"]);
+        let out = run_program(&ctx, Source::Fixed(&prog), &fb, "replay");
+        sh.rep(|r| {
+            if let Some(t) = &out.trouble {
+                r.inconclusive(t);
+            }
+            for v in &out.violations {
+                r.violation(&v.sig, &v.what, prog_json(&out.prog[..=v.step.min(out.prog.len() - 1)], &fb));
+            }
+        });
+    } else {
+        let iters = args.iters(400, 4000);
+        let max_steps = args.usize("steps", 40);
+        let min_budget = args.usize("min-trials", 60);
+        let base_rng = Rng::new(args.seed()).fork(args.shard() + 1);
+        let mut seen: HashSet<String> = HashSet::new();
+        for i in 0..iters {
+            if sh.rep(|r| r.out_of_time()) {
+                break;
+            }
+            let mut rng = base_rng.fork(i as u64);
+            let n = 6 + rng.below(max_steps.max(7) - 6);
+            let fb: Vec<u8> = match rng.below(4) {
+                0 => FALLBACK_OPS.to_vec(),
+                1 => FALLBACK_OPS.iter().copied().filter(|c| *c != IORING_OP_OPENAT).collect(),
+                _ => FALLBACK_OPS.iter().copied().filter(|_| rng.chance(2, 3)).collect(),
+            };
+            let out = run_program(&ctx, Source::Gen { rng: &mut rng, n }, &fb, "p");
+            sh.rep(|r| r.count("programs", 1));
+            if let Some(t) = &out.trouble {
+                sh.rep(|r| r.inconclusive(t));
+            }
+            if out.fatal {
+                // leak everything; closing descriptors now could hit foreign ones
+                sh.done.store(true, Ordering::SeqCst);
+                sh.rep(|r| r.finish());
+                std::process::exit(0);
+            }
+            for v in &out.violations {
+                let first = seen.insert(v.sig.clone());
+                let prog = if first {
+                    minimise(&ctx, &out.prog, &fb, v, min_budget)
+                } else {
+                    out.prog[..=v.step].to_vec()
+                };
+                sh.rep(|r| {
+                    r.eval(None);
+                    r.violation(&v.sig, &v.what, prog_json(&prog, &fb));
+                });
+            }
+            if out.violations.is_empty() && sh.rep(|r| r.want_sample()) && out.prog.len() >= 8 {
+                sh.rep(|r| r.sample(prog_json(&out.prog[..8], &fb)));
+            }
+        }
+    }
+    sh.done.store(true, Ordering::SeqCst);
+    drop(variants);
+    remove_tree(&base);
+    sh.rep(|r| r.finish());
 }
